@@ -39,6 +39,10 @@ def type_by_name(name, module=None):
     table = {"int": int, "str": str, "List[int]": List[int], "Optional[str]": Optional[str], "Optional[int]": Optional[int],
              "Dict[str, int]": Dict[str, int], "NoneType": type(None), "Dict[str, Any]": Dict[str, Any],
              "Tuple[int, ...]": Tuple[int, ...], "Union[int, str]": Union[int, str]}
+    if name in ("Decimal", "Fraction", "UUID", "List[Fraction]"):
+        import decimal, fractions, uuid
+        return {"Decimal": decimal.Decimal, "Fraction": fractions.Fraction, "UUID": uuid.UUID,
+                "List[Fraction]": List[fractions.Fraction]}[name]
     if name == "LongDict":
         t = int
         for _ in range(12):
@@ -125,6 +129,20 @@ def call_live(mod, fn):
     return res
 
 
+def updated_definition(func, traces, strategy):
+    """get_updated_definition, or - when it raises - a stand-in definition no live function mirrors plus the message
+    (the CLI would produce no stub at all: the property predicate is false on that behaviour)"""
+    from monkeytype.stubs import FunctionDefinition, FunctionKind, get_updated_definition
+    try:
+        return get_updated_definition(func, traces, 0, None, strategy), None
+    except Exception as e:
+        sig = inspect.Signature([inspect.Parameter("get_updated_definition_raised_" + type(e).__name__,
+                                                   inspect.Parameter.POSITIONAL_OR_KEYWORD)])
+        d = FunctionDefinition(func.__module__, func.__qualname__, FunctionKind.MODULE, sig, False)
+        return d, (f"get_updated_definition({func.__qualname__}{inspect.signature(func)}, strategy={strategy.name}) "
+                   f"raised {type(e).__name__}: {e}")
+
+
 def defs_live(fx, sc):
     """scenario kind "live": fixture modules on disk, CallTrace objects per traced function -> FunctionDefinitions by
     /repo's get_updated_definition; returns (fcases as dicts, defs, stubs by /repo's build_module_stubs, notes)"""
@@ -152,7 +170,11 @@ def defs_live(fx, sc):
                 except Exception as e:   # a call we could not make is simply not traced
                     notes.append(f"call of {fn['module']}.{'.'.join(fn['path'] + [fn['name']])} raised {type(e).__name__}")
         index = {f: ts for f, ts in logger.index.items() if f in by_func}
-        ref_stubs = logger.get_stubs()
+        try:
+            ref_stubs = logger.get_stubs()
+        except Exception as e:
+            ref_stubs = None
+            ref_error = f"{type(e).__name__}: {e}"
     else:
         index = {}
         for func, fn in by_func.items():
@@ -164,11 +186,18 @@ def defs_live(fx, sc):
                                  type_by_name(tr["yield"], mod) if tr["yield"] else None))
             index[func] = ts
             all_traces += list(ts)
-        ref_stubs = build_module_stubs_from_traces(all_traces, 0, strategy)
+        try:
+            ref_stubs = build_module_stubs_from_traces(all_traces, 0, strategy)
+        except Exception as e:
+            ref_stubs = None
+            ref_error = f"{type(e).__name__}: {e}"
+    any_raised = False
     for func, traces in index.items():
         fn = by_func[func]
-        d = get_updated_definition(func, traces, 0, None, strategy)
-        defs.append(d)
+        d, raised = updated_definition(func, traces, strategy)
+        if raised is None:
+            defs.append(d)
+        any_raised = any_raised or raised is not None
         sig = inspect.signature(func)
         gt_params = rf.gt_params_of_signature(sig)
         if [tuple(x) for x in fn["gt_params"]] != gt_params:
@@ -176,8 +205,12 @@ def defs_live(fx, sc):
         traced_names = sorted({k for t in traces for k in t.arg_types})
         fcs.append({"qual": fn["path"] + [fn["name"]], "kind": fn["gt_kind"], "async": fn["flavour"] == "coroutine",
                     "gt_params": gt_params, "updated": True, "traced": traced_names, "strategy": sc["strategy"],
-                    "defn": d, "flavour": fn["flavour"]})
+                    "defn": d, "flavour": fn["flavour"], "raised": raised})
     stubs = build_module_stubs(defs)
+    if ref_stubs is None:
+        if not any_raised:
+            notes.append("MISMATCH: build_module_stubs_from_traces raised " + ref_error + " where get_updated_definition did not")
+        ref_stubs = stubs
     # build_module_stubs_from_traces / StubIndexBuilder.get_stubs take the same path with another order of definitions
     def safe_items(stub):
         try:
@@ -217,18 +250,26 @@ def defs_store(mod, modname, fns, strategy_name):
     for t in rt_traces:
         index.setdefault(t.func, set()).add(t)
     fcs, defs = [], []
+    any_raised = False
     for func, traces in index.items():
         fn, real = by_qual[func.__qualname__]
-        d = get_updated_definition(func, traces, 0, None, strategy)
-        defs.append(d)
+        d, raised = updated_definition(func, traces, strategy)
+        if raised is None:
+            defs.append(d)
+        any_raised = any_raised or raised is not None
         gt_params = rf.gt_params_of_signature(inspect.signature(real))
         if [tuple(x) for x in fn["gt_params"]] != gt_params:
             raise RuntimeError(f"generator and inspect.signature disagree on {real.__qualname__}")
         fcs.append({"qual": fn["path"] + [fn["name"]], "kind": fn["gt_kind"], "async": fn["flavour"] == "coroutine",
                     "gt_params": gt_params, "updated": True, "traced": sorted({k for t in traces for k in t.arg_types}),
-                    "strategy": strategy_name, "defn": d, "flavour": fn["flavour"]})
+                    "strategy": strategy_name, "defn": d, "flavour": fn["flavour"], "raised": raised})
     stubs = build_module_stubs(defs)
-    ref_stubs = build_module_stubs_from_traces(rt_traces, 0, strategy)
+    try:
+        ref_stubs = build_module_stubs_from_traces(rt_traces, 0, strategy)
+    except Exception as e:
+        if not any_raised:
+            notes.append(f"MISMATCH: build_module_stubs_from_traces raised {type(e).__name__}: {e} where get_updated_definition did not")
+        ref_stubs = stubs
 
     def safe_items(stub):
         try:
@@ -338,7 +379,15 @@ def cases_of_scenario(fx, sc):
 def module_cases(fcs, stubs, sc, notes):
     all_term = coq_list(coq_fcase(fc) for fc in fcs)
     out = []
-    for modname, stub in stubs.items():
+    class _NoStub:
+        def render(self):
+            raise RuntimeError("no stub was built for this module (every definition raised)")
+    todo = list(stubs.items())
+    for fc in fcs:
+        m = fc["defn"].module
+        if m not in stubs and m not in [x for x, _ in todo]:
+            todo.append((m, _NoStub()))
+    for modname, stub in todo:
         try:
             full = stub.render()
         except Exception as e:
@@ -347,19 +396,21 @@ def module_cases(fcs, stubs, sc, notes):
             text = f"?render raised {type(e).__name__}: {e}"
             parse_term, parse_plain, err = "None", None, f"ModuleStub.render() raised {type(e).__name__}: {e}"
             toks = [f"(TKw {coq_str('?render-raised')})"]
+            tlines = []
         if full is not None:
             text = body_text(stub, full)
             parse_term, parse_plain, err = rf.items_of_text(full)
             toks = rf.tokens_of_text(text)
+            tlines = rf.lines_of_text(full)
         else:
             full = text
-        term = "(MCase %s %s %s %s %s %s)" % (
+        term = "(MCase %s %s %s %s %s %s %s)" % (
             coq_str(modname), all_term, coq_list(coq_str(m) for m in stubs.keys()),
-            coq_text(text), coq_list(toks), parse_term)
+            coq_text(text), coq_list(toks), parse_term, coq_list(tlines))
         mine = [fc for fc in fcs if fc["defn"].module == modname]
         out.append({"term": term, "scenario": sc, "module": modname, "text": full, "syntax_error": err,
                     "parsed": parse_plain, "funcs": mine, "notes": notes, "parse_term": parse_term})
-    if not stubs:
+    if not todo:
         out.append({"term": None, "scenario": sc, "module": None, "text": "", "syntax_error": None, "parsed": [],
                     "funcs": [], "notes": notes})
     return out
@@ -372,10 +423,12 @@ def fn_record(modname, spec, rnd):
     gt_params = [(p.name, p.kind, p.default is not None, p.anno is not None) for p in spec.params]
     traces = []
     for _ in range(rnd.choice([1, 1, 2])):
-        args = {p.name: ("Outer" if p.name in ("self", "cls") else rnd.choice(TRACE_TYPES))
-                for p in spec.params if rnd.random() < 0.85}
+        force = getattr(spec, "force", None) or {}
+        args = {p.name: ("Outer" if p.name in ("self", "cls") else force.get(p.name) or rnd.choice(TRACE_TYPES))
+                for p in spec.params if p.name in force or rnd.random() < 0.85}
         is_gen = spec.flavour in ("generator", "asyncgen")
-        traces.append({"args": args, "ret": rnd.choice([None, "int", "NoneType"]), "yield": "int" if is_gen else None})
+        traces.append({"args": args, "ret": force.get("return") or rnd.choice([None, "int", "NoneType"]),
+                       "yield": "int" if is_gen else None})
     return {"module": modname, "path": spec.path, "name": spec.name, "gt_kind": spec.fkind, "flavour": spec.flavour,
             "gt_params": gt_params, "traces": traces}
 
@@ -392,7 +445,7 @@ def live_scenarios(rnd, tier, tag):
     for i in range(n_mod):
         modname = f"c12fx_{tag}_{i}"
         chosen = [subsets[(i * 11 + j) % len(subsets)] for j in range(11)]
-        specs = gen.gen_module_specs(rnd, chosen, 3)
+        specs = gen.gen_module_specs(rnd, chosen, 3, modname=modname)
         source = gen.module_source(specs)
         fns = [fn_record(modname, s, rnd) for s in specs]
         m = {"name": modname, "source": source}
@@ -406,6 +459,10 @@ def live_scenarios(rnd, tier, tag):
         if nest:
             picks.append([rnd.choice(nest)])
         picks.append([rnd.choice(fns)])
+        meta = [f for f in fns if f["path"] and f["path"][-1] == "Meta"]
+        if meta:
+            picks.append(meta)
+            picks.append([f for f in meta if f["name"] == "describe"])
         for k, sub in enumerate(picks):
             if not sub:
                 continue
@@ -517,6 +574,9 @@ def grammar_cases(rnd, tier):
 
 # --------------------------------------------------------------------------------------------------
 def describe_failure(c):
+    for fc in c["funcs"]:
+        if fc.get("raised"):
+            return f"no stub for {c['module']}: {fc['raised']}"
     quals = [".".join(fc["qual"]) for fc in c["funcs"]]
     head = f"ModuleStub.render() for traces of {c['module']}.{{{', '.join(quals[:6])}{', ...' if len(quals) > 6 else ''}}}"
     if c["syntax_error"] and c["syntax_error"].startswith("ModuleStub.render() raised"):
